@@ -355,15 +355,26 @@ def run_apply(run, drv):
                                 out = src.apply(lambda x: torch.zeros_like(x), filter_empty=False)
                                 src._fast_apply(lambda x: x + 3, out=out, num_threads=threads, filter_empty=False)
                                 return out
-                            return src._fast_apply(lambda x: x + 1, call_on_nested=True, num_threads=threads, filter_empty=fe)
+                            fn_cn = lambda x: x + 1 if isinstance(x, torch.Tensor) else x.apply(lambda y: y + 1, filter_empty=False)  # noqa: E731
+                            return src._fast_apply(fn_cn, call_on_nested=True, num_threads=threads, filter_empty=fe)
 
-                    a, b = run_one(nt), run_one(0)
-                    raw = lambda td: None if td is None else sorted((k2 if isinstance(k2, str) else ".".join(k2), v.reshape(-1).tolist()) for k2, v in td.items(True, True))  # noqa: E731
-                    same = raw(a) == raw(b)
-                    a = b = None if (a is None and b is None) else (a, b)[0] if same else a
-                    if not same:
-                        raise AssertionError(f"values differ: {raw(run_one(nt))} vs single-threaded {raw(run_one(0))}")
-                    a, b = run_one(nt), run_one(0)
+                    def outcome(threads):
+                        """the result, or the exception class when the call raises: the multithreaded form must do what the
+                        single-threaded form does, including raising"""
+                        try:
+                            return run_one(threads)
+                        except TimeoutError:
+                            raise
+                        except Exception as e:  # noqa: BLE001
+                            return ("raised", type(e).__name__)
+
+                    a, b = outcome(nt), outcome(0)
+                    raw = lambda td: td if (td is None or isinstance(td, tuple)) else sorted((k2 if isinstance(k2, str) else ".".join(k2), v.reshape(-1).tolist()) for k2, v in td.items(True, True))  # noqa: E731
+                    if raw(a) != raw(b):
+                        raise AssertionError(f"values differ: {raw(a)} vs single-threaded {raw(b)}")
+                    same = True
+                    if isinstance(a, tuple):
+                        a = b = None
                 else:
                     a = tree_td(t)._fast_apply(functools.partial(leaf_fn, none_vals=none_vals, delays=delays), num_threads=nt, filter_empty=fe)
                     b = tree_td(t)._fast_apply(functools.partial(leaf_fn, none_vals=none_vals), num_threads=0, filter_empty=fe)
